@@ -195,16 +195,34 @@ class VerusUnit:
             clauses.append(dict(fn=(f['name'] if f else (l.get('fn') or enclosing_named_fn(l['line'] + 1))), module=mod_at[l['line'] - 1], props=l['props'], text=l['text'], line=l['line'], failed=failed,
                                 repo_file=(f['file'] if f else None), repo_line=(f['line'] if f else None)))
         trusted = []
+        cur_impl = ''
         for i, ln in enumerate(lines):
-            if re.search(r'external_body|assume_specification|\badmit\(|\bassume\(|uninterp spec fn|#\[verifier::external', ln) and not ln.strip().startswith('//'):
-                # name the item
-                nm = None
-                for k in range(i, min(i + 4, len(lines))):
-                    m = re.search(r'(?:fn|assume_specification[^\[]*\[)\s*([^\(\]]+)', lines[k])
-                    if m:
-                        nm = m.group(1).strip()
-                        break
-                trusted.append('%s: %s (%s)' % (self.name, (nm or ln.strip())[:120], ln.strip().split('(')[0][:40]))
+            mi = re.match(r'\s*(?:pub\s+)?(?:impl(?:<[^>]*>)?\s+([^{]+?)\s*\{|trait\s+(\w+))', ln)
+            if mi and not ln.strip().startswith('//'):
+                cur_impl = re.sub(r'\s+', ' ', (mi.group(1) or mi.group(2) or '')).strip()
+            if ln.strip().startswith('//'):
+                continue
+            kind = None
+            if 'external_body' in ln:
+                kind = 'external_body (trusted contract, body not verified)'
+            elif 'assume_specification' in ln:
+                kind = 'assume_specification (trusted contract of a std function)'
+            elif re.search(r'\buninterp spec fn\b', ln):
+                kind = 'uninterpreted spec function'
+            elif re.search(r'\badmit\(|\bassume\(', ln):
+                kind = 'ASSUME/ADMIT in proof'
+            elif re.search(r'global size_of', ln):
+                kind = 'layout assumption'
+            if not kind:
+                continue
+            nm = None
+            for k in range(i, min(i + 4, len(lines))):
+                m = re.search(r'(?:\bfn\s+(\w+)|assume_specification[^\[]*\[\s*([^\]]+?)\s*\]|global size_of (\w+ == \d+))', lines[k])
+                if m:
+                    nm = m.group(1) or m.group(2) or m.group(3)
+                    break
+            owner = (cur_impl + '::') if (cur_impl and 'fn' in ln or (nm and kind.startswith('external_body'))) and cur_impl else ''
+            trusted.append('%s: %s%s -- %s' % (self.name, owner, nm or ln.strip()[:80], kind))
         return dict(tool_failure=None, functions=functions, clauses=clauses, errors=errors, lemmas=lemmas, trusted=sorted(set(trusted)),
                     cmd='verus <extracted %s> --multiple-errors 50 --output-json --time-expanded' % os.path.basename(self.template),
                     wall_s=wall, rules=meta['rules'], rewrites=meta['rewrites'], items=meta['items'], path=path,
